@@ -42,6 +42,38 @@ def raised_in_repo(exc: BaseException) -> str | None:
     return '%s: %s at %s:%d in %s' % (type(exc).__name__, str(exc)[:120], os.path.relpath(fn, REPO), last.tb_lineno, last.tb_frame.f_code.co_name)
 
 
+def _jsonable(case):
+    try:
+        json.dumps(case)
+        return case
+    except (TypeError, ValueError):
+        pass
+    if isinstance(case, dict):
+        out = {}
+        for k, v in case.items():
+            try:
+                json.dumps(v); out[k] = v
+            except (TypeError, ValueError):
+                try:
+                    out[k] = json.loads(json.dumps(v, default=lambda o: list(o) if isinstance(o, (tuple, set, frozenset)) else repr(o)))
+                except (TypeError, ValueError):
+                    out[k] = repr(v)[:2000]
+        return out
+    return {'repr': repr(case)[:5000]}
+
+
+def repo_exception_as_violation(exc: BaseException, case):
+    """Every check handles the refusals its property allows (rules that raise, proofs the toolkit rejects, ...) itself; an
+    exception that escapes to here from a frame of the repository means the code under test crashed on a generated input
+    of the property's domain instead of producing the result the property speaks about."""
+    where = raised_in_repo(exc)
+    if where is None:
+        return None
+    short = where.split(' at ')[-1]
+    return Violation('the code under test raised instead of returning a result on an input inside the property\'s domain: %s' % where,
+                     _jsonable(case), 'raises:%s:%s' % (type(exc).__name__, short.split(' in ')[-1]))
+
+
 def setup_paths() -> None:
     for p in (REPO_SRC, VERIF, DEPS):
         if p not in sys.path:
@@ -297,7 +329,15 @@ def run_given(stats: Stats, seed_val: int, max_examples: int, strategy, body, sh
             state['skipped'] += 1
             return
         try:
-            body(case, stats if not state['failed'] else Stats())
+            try:
+                body(case, stats if not state['failed'] else Stats())
+            except (Violation, HarnessError):
+                raise
+            except Exception as e:  # noqa: BLE001 - classified by origin
+                v2 = repo_exception_as_violation(e, case)
+                if v2 is None:
+                    raise
+                raise v2 from e
         except Violation as v:
             state['failed'] = True
             if state.get('best') is None or len(repr(v.replay)) <= len(repr(state['best'].replay)):
